@@ -1252,11 +1252,22 @@ End Proofs.
 Lemma keq_go_refl a : keq_go a a = true.
 Proof. apply str_eqb_refl. Qed.
 
+(* every reserved keyword is spelled in lower case: the exact lookup implies the case-insensitive one *)
+Lemma reserved_keywords_lower : forallb (fun k => str_eqb (go_lower k) k) C12Tables.reserved_keywords = true.
+Proof. vm_compute. reflexivity. Qed.
+
+Lemma reserved_exact_ci n : go_reserved n = true -> reserved_ci n = true.
+Proof.
+  unfold reserved_ci, go_reserved. intro H. apply existsb_exists in H as (k & Hk & E). apply str_eqb_eq in E. subst k.
+  pose proof reserved_keywords_lower as L. rewrite forallb_forall in L. specialize (L n Hk). apply str_eqb_eq in L.
+  rewrite L. apply existsb_exists. exists n. split; [assumption | apply str_eqb_refl].
+Qed.
+
 Lemma reserved_unm n : go_reserved n = true -> unm mt_go n.
 Proof.
-  intros Hr p Hp. unfold mt_go, match_pattern.
-  destruct (never_reserved go_lower go_reserved n p Hp Hr) as (_ & E & _).
-  unfold match_pattern_pinned. rewrite E. reflexivity.
+  intros Hr p Hp. unfold mt_go, match_pattern, match_pattern_fixed.
+  destruct (never_reserved go_lower reserved_ci n p Hp (reserved_exact_ci n Hr)) as (E & _).
+  rewrite E. reflexivity.
 Qed.
 
 Lemma nonemptyb_ne {A} (l : list A) : nonemptyb l = true -> l <> [].
